@@ -219,3 +219,85 @@ def mutate(rng, data):
     except (KeyError, IndexError, TypeError):
         pass
     return kind, d
+
+
+# ------------------------------------------------------------------ regions of the known findings
+def _subclasses(u, name):
+    out = []
+    for c in u.desc["classes"]:
+        if name in c.get("bases", []):
+            out.append(c["name"])
+            out += _subclasses(u, c["name"])
+    return out
+
+
+def _keys_and_names(u, cname):
+    """[(key under which the encoder emits the field, local name, field name)] from the field metadata"""
+    out = []
+    for f in G.all_fields(u, cname):
+        md = f.get("metadata", {})
+        local = md.get("name") or f["name"]
+        out.append((md.get("wrapper") or local, local, f["name"]))
+    return out
+
+
+def regions(u: B.Universe, value, factory="dict"):
+    """ids of the known findings whose region the (universe, value, factory) falls in;
+    computed from the class descriptions and the value only"""
+    found = set()
+
+    def walk_any(v):
+        a = v["any"]
+        if factory == "filter_none" and (a["qname"] is None or a["text"] is None or a["tail"] is None):
+            found.add("C04-filter-none-anyelement")
+        for c in a["children"]:
+            if isinstance(c, dict) and "any" in c:
+                walk_any(c)
+
+    def walk_obj(v, declared=None, compound=False):
+        cname = v["obj"]
+        vals = dict((k, x) for k, x in v["fields"])
+        kn = _keys_and_names(u, cname)
+        if declared is not None:
+            # the decoder goes through bind_best_dataclass for a compound choice and for a
+            # declared class with loaded subclasses
+            pool = _subclasses(u, declared)
+            if pool or compound:
+                pool = ([] if compound else pool) + [declared]
+                keys = [k for k, _, fn in kn if not (factory == "filter_none" and vals.get(fn) is None)]
+                for other in pool:
+                    if other != cname and set(keys) <= {ln for _, ln, _ in _keys_and_names(u, other)}:
+                        found.add("C04-subclass-ambiguity")
+                if not set(keys) <= {ln for _, ln, _ in kn}:
+                    found.add("C04-wrapper-local-names")
+        for f in G.all_fields(u, cname):
+            x = vals.get(f["name"])
+            md = f.get("metadata", {})
+            items = x["list"] if isinstance(x, dict) and "list" in x else [x]
+            bt = G._base(f["type"])
+            if md.get("type") == "Elements":
+                order = [ch["type"] for ch in md["choices"]]
+                for it in items:
+                    if isinstance(it, dict) and "str" in it and "int" in order and "str" in order and order.index("int") < order.index("str"):
+                        try:
+                            int(it["str"])
+                            found.add("C04-compound-str-as-int")
+                        except ValueError:
+                            pass
+            for it in items:
+                if not isinstance(it, dict):
+                    continue
+                if "any" in it:
+                    walk_any(it)
+                elif "derived" in it:
+                    found.add("C04-derived-without-type")
+                elif "obj" in it:
+                    if md.get("type") == "Elements":
+                        walk_obj(it, it["obj"], compound=True)
+                    else:
+                        walk_obj(it, bt["cls"] if isinstance(bt, dict) and "cls" in bt else None)
+
+    for top in (value["list"] if isinstance(value, dict) and "list" in value else [value]):
+        if isinstance(top, dict) and "obj" in top:
+            walk_obj(top)
+    return found
